@@ -18,3 +18,32 @@ Example C07_fullsync_nonvacuous :
   let s := fst (crun fsst (fstepZ 4) fstart fs_idle flog fobs 1 1 (wake_rule_fullsync 1) (cinit fsst 1 finit) (cprogs_of progs) sched) in
   clog _ s = [(0%nat, CPending 0); (0%nat, CPending 0); (1%nat, CSendOk 7); (1%nat, CCancelled); (0%nat, CYield 0 7); (0%nat, CEnd 0)].
 Proof. vm_compute. reflexivity. Qed.
+
+(* ---- the same statement WHATEVER the queue component is (Chan/UniCancel.v): the argument never looks inside the queue, so it covers the
+   movable atomic channel (lock-free ring), the movable full-sync channel, the channel over the reserve machine ... - every schedule, any
+   number of producers / length queries / cancel_all callers, every MAX_STREAMS, 0 < k <= MAX_STREAMS task-driven streams ---- *)
+From RM Require Import UniCancel.
+Theorem C07_cancel_terminates_whatever_the_queue :
+  forall (Q : Type) (qstep : Q -> nat -> Q) (qstart : Q -> nat -> op -> Q) (qidle : Q -> nat -> bool) (qlog : Q -> list (nat * res))
+         (M k : nat) (wake_rule : Z -> option nat), (0 < k)%nat -> (k <= M)%nat ->
+  forall q0 cevs i, Forall (UniCancel.wf_ev k) cevs -> (i < k)%nat ->
+    ~ UniCancel.stuck_cancelled Q k (fold_left (cexec Q qstep qstart qidle qlog M k wake_rule) cevs (cinit Q k q0)) i.
+Proof. exact cancel_terminates_any_queue. Qed.
+Print Assumptions C07_cancel_terminates_whatever_the_queue.
+
+(* ... and for the channel machine of the zero-copy Uni channels (Chan/ChanZ.v: a release phase after every yield), again whatever the
+   queue component (pool + lock-free id ring: zero-copy atomic; pool + full-sync id ring: zero-copy full-sync) *)
+From RM Require Import ChanZ ZcCancel.
+Theorem C07_zero_copy_cancel_terminates_whatever_the_queue :
+  forall (Q : Type) (qstep : Q -> nat -> Q) (qstart : Q -> nat -> op -> Q) (qidle : Q -> nat -> bool) (qlog : Q -> list (nat * res)) (qrel : Q -> nat -> Q)
+         (M k : nat) (wake_rule : Z -> option nat), (0 < k)%nat -> (k <= M)%nat ->
+  forall q0 cevs i, Forall (ZcCancel.wf_ev k) cevs -> (i < k)%nat ->
+    ~ ZcCancel.stuck_cancelled Q k (fold_left (ZC.cexec Q qstep qstart qidle qlog qrel M k wake_rule) cevs (ZC.cinit Q k q0)) i.
+Proof. exact ZcCancel.cancel_terminates_any_queue. Qed.
+Print Assumptions C07_zero_copy_cancel_terminates_whatever_the_queue.
+
+(* instance check: the movable ATOMIC channel (lock-free ring) *)
+Example C07_atomic_instance :
+  forall N M k, (0 < k)%nat -> (k <= M)%nat -> forall cevs i, Forall (UniCancel.wf_ev k) cevs -> (i < k)%nat ->
+    ~ UniCancel.stuck_cancelled st k (ua_run N M k cevs) i.
+Proof. intros N M k Hk HM cevs i. exact (C07_cancel_terminates_whatever_the_queue st (stepZ N) start ring_idle log M k (wake_rule_atomic M) Hk HM init cevs i). Qed.
